@@ -36,6 +36,16 @@ var VerifDir = func() string {
 	return "/verif"
 }()
 
+// OutDir is where evidence, replays and run scratch go (default: VerifDir). The seeded-change
+// audit points it at a scratch directory so that runs against a deliberately broken copy of
+// the repository never overwrite the evidence of the real tree.
+var OutDir = func() string {
+	if d := os.Getenv("VERIF_OUT"); d != "" {
+		return d
+	}
+	return VerifDir
+}()
+
 // RepoDir is the plenc tree under verification (default /repo).
 var RepoDir = func() string {
 	if d := os.Getenv("VERIF_REPO"); d != "" {
@@ -462,7 +472,7 @@ type workerRun struct {
 
 func runWorker(self string, p *Prop, tier string, w, n int, deadline time.Time, only int64) workerRun {
 	var wr workerRun
-	dir := filepath.Join(VerifDir, ".build", "run")
+	dir := filepath.Join(OutDir, ".build", "run")
 	os.MkdirAll(dir, 0o755)
 	cellPath := filepath.Join(dir, fmt.Sprintf("%s.%d.cell", p.ID, w))
 	var skips []string
@@ -695,7 +705,7 @@ func drive(p *Prop, tier string) int {
 	for _, id := range ids {
 		fmt.Printf("KNOWN-FINDING: property=%s %s: %s (%d cases)\n", p.ID, id, knownWhat[id], known[id])
 	}
-	rdir := filepath.Join(VerifDir, "replays", p.ID)
+	rdir := filepath.Join(OutDir, "replays", p.ID)
 	os.RemoveAll(rdir)
 	for i, v := range fresh {
 		path := filepath.Join(rdir, fmt.Sprintf("%d.json", i+1))
@@ -807,8 +817,8 @@ func writeEvidence(p *Prop, a *Agg, tier string, wall float64, nviol int, known 
 		"assumptions": p.Assumptions, "wall_s": wall, "violations": nviol,
 	}
 	b, _ := json.MarshalIndent(ev, "", " ")
-	os.MkdirAll(filepath.Join(VerifDir, "evidence"), 0o755)
-	os.WriteFile(filepath.Join(VerifDir, "evidence", p.ID+".json"), b, 0o644)
+	os.MkdirAll(filepath.Join(OutDir, "evidence"), 0o755)
+	os.WriteFile(filepath.Join(OutDir, "evidence", p.ID+".json"), b, 0o644)
 }
 
 func topN(m map[string]int64, n int) map[string]int64 {
